@@ -6,7 +6,7 @@ from ..errors import AnalysisError
 from ..idx import index
 from ..px import OK, PX, RAISE, Closure, Outcomes
 from ..pxv import Obj, Sym
-from ..te import Member, TypeRef
+from ..te import FuncRef, Member, Record, TypeRef
 from .util import anchor_attrs
 from .util import const, fut, same_class, self_obj
 
@@ -173,6 +173,23 @@ def r17_3(ctx):
                 ok = p.terminal == "return" and got == exp and all(isinstance(e.args[0], Member) and e.args[0].name == want for e in sr)
                 ctx.require(ok, f"fanout:done_first={done_first}", f"status {st_in!r} with listeners [f1{'(done)' if done_first else ''}, f2 | d1]: completes {got} "
                             f"(expected {exp}), {p.terminal} {p.value if p.terminal == 'raise' else ''}", func=f, trace=p.trace(12))
+    # every legacy status byte (defined or not): only the legacy NETWORK_UP code completes the waiters for "network up" and only
+    # NETWORK_DOWN those for "network down" - a stray or unknown status must not be taken for the awaited event
+    ec = repo.cls(NAMED, "EmberStatus")
+    by_val = {}
+    for m in ec.members().values():
+        by_val.setdefault(m.value, m)
+    pxa = PX(repo, models=[("*.set_result", Outcomes(OK(None))), ("*.done", lambda px_, t, a, k, fr: False), ("*.cancelled", lambda px_, t, a, k, fr: False)], inline=same_class())
+    for v in range(256):
+        m = by_val.get(v) or Member(ec, f"undefined_0x{v:02x}", v)
+        import collections as _c
+        for p in pxa.explore(f, lambda: (self_obj(cls, {"_stack_status_listeners": _c.defaultdict(list, {sl["NETWORK_UP"]: [fut("u1")], sl["NETWORK_DOWN"]: [fut("d1")]})}),
+                                         {"frame_name": "stackStatusHandler", "args": [m]})):
+            ctx.paths += 1
+            got = sorted(e.callee.split(".")[0] for e in p.events if e.kind == "call" and e.what.endswith(".set_result"))
+            exp = ["u1"] if m.name == "NETWORK_UP" else (["d1"] if m.name == "NETWORK_DOWN" else [])
+            ctx.require(p.terminal == "return" and got == exp, f"fanout:legacy-status:{'up-down' if exp else 'other'}",
+                        f"stack status {m!r}: completes the waiters {got} (expected {exp}); {p.terminal} {p.value if p.terminal == 'raise' else ''}", func=f, trace=p.trace(10))
     px = PX(repo, inline=same_class())
     for p in px.explore(f, lambda: (self_obj(cls, {"_stack_status_listeners": {sl["NETWORK_UP"]: [fut("f1")]}}), {"frame_name": "otherHandler", "args": [es["NETWORK_UP"]]})):
         ctx.require(p.terminal == "return" and not [e for e in p.events if e.kind == "call"], "fanout:other-frame", "a frame other than stackStatusHandler touches listeners", func=f)
@@ -231,22 +248,40 @@ def r17_4(ctx):
             return Outcomes(RAISE("CancelledError"))  # nothing completes the wait: the caller's timeout ends it
         return Outcomes(OK(sim.result(target)))
 
+    public = cls.attrs.get("startScan")
+    if isinstance(public, Record) and public.ctor_name == "partialmethod":
+        ctx.anchor(public.args and public.args[0] is f or getattr(public.args[0], "qual", None) == f.qual, "startScan is bound to _list_command")
+    elif not isinstance(public, FuncRef):
+        raise AnalysisError(f"EZSP.startScan is neither a partialmethod of _list_command nor a method: {public!r}")
     cmd_outs = [("accepted", OK([es["SUCCESS"]])), ("refused", OK([es["ERR_FATAL"]])), ("EzspError", RAISE("EzspError")), ("TimeoutError", RAISE("TimeoutError")),
                 ("CancelledError", RAISE("CancelledError"))]
     n_paths = 0
     for cname, cout in cmd_outs:
         for wait_mode in (("ok", "bad-status", "cancel") if cname == "accepted" else ("ok",)):
-            px = PX(repo, inline=same_class(stop=()), models=sim.models() + [("self._command", Outcomes(cout)), ("self.add_callback", add_cb),
-                                                                            ("self.remove_callback", rem_cb), ("await:*", waiter)])
+            def command_model(px_, t, a, k, fr, cout=cout):
+                # the operation's own command gets the outcome under test; any further command it issues on the way out (a
+                # "stop" command, say) may succeed or fail in every way a command can
+                state["commands"] = state.get("commands", 0) + 1
+                if state["commands"] == 1:
+                    return Outcomes(cout)
+                return Outcomes(OK([es["SUCCESS"]]), RAISE("EzspError"), RAISE("TimeoutError"), RAISE("CancelledError"))
 
-            def setup():
+            px = PX(repo, inline=same_class(stop=()), models=sim.models() + [("self._command", command_model), ("self.add_callback", add_cb),
+                                                                            ("self.remove_callback", rem_cb), ("await:*", waiter)])
+            px.inline.root = f
+
+            def entry():
                 sim.reset()
                 state.clear()
                 state["wait"] = wait_mode
-                return self_obj(cls, {}), {"name": "startScan", "item_frames": ["energyScanResultHandler", "networkFoundHandler"], "completion_frame": "scanCompleteHandler",
-                                           "spos": 1, "args": (), "kwargs": {}}
+                me = self_obj(cls, {})
+                px.top_frame = None
+                # through the public entry point, with whatever it binds (functools.partialmethod arguments or a wrapper method)
+                if isinstance(public, Record) and public.ctor_name == "partialmethod":
+                    return px.call_function(f, me, list(public.args[1:]), dict(public.kwargs), None)
+                return px.call_function(public, me, [], {}, None)
 
-            paths = px.explore(f, setup)
+            paths = px._run(entry)
             n_paths += len(paths)
             for p in paths:
                 ctx.paths += 1
@@ -256,8 +291,8 @@ def r17_4(ctx):
                 waits = [e for e in p.events if e.kind == "await" and e.args and isinstance(e.args[0], Obj) and e.args[0].tag in sim.state]
                 pid = f"[{cname}/{wait_mode if cname == 'accepted' else '-'}]"
                 bad = None
-                if len(add) != 1 or len(cmd) != 1:
-                    bad = f"{len(add)} registrations / {len(cmd)} commands"
+                if len(add) != 1 or len(cmd) < 1 or cmd[0].args[:1] != ("startScan",):
+                    bad = f"{len(add)} registrations / commands {[e.args[:1] for e in cmd]}"
                 elif p.events.index(add[0]) > p.events.index(cmd[0]):
                     bad = "the command is issued before the collecting callback is registered (early results are lost)"
                 elif add[0].epoch != cmd[0].epoch - 1 and add[0].epoch != cmd[0].epoch:
